@@ -242,8 +242,13 @@ class Driver:
 
 
 def strongest(prios):
+    '''independent of tools.submit.Priority.max: NOW > CREW > DOING > TODO'''
     import dawgie.tools.submit as ts
-    return ts.Priority.max(*prios) if prios else None
+    order = [ts.Priority.NOW, ts.Priority.CREW, ts.Priority.DOING, ts.Priority.TODO]
+    for p in order:
+        if p in prios:
+            return p
+    return None
 
 
 def check(dr, ev, exc, ncalls_before, report):
